@@ -1036,3 +1036,94 @@ m('C06','cycle-on-late',PC,
 m('C06','benign-late-guard',PC,
   '\t\t\tif cache.received < cache.expected {\n\t\t\t\tcache.received++\n\t\t\t}','\t\t\tif cache.received < cache.expected {\n\t\t\t\tcache.received += 1\n\t\t\t}',
   '','','+= 1',benign=True)
+# ---------------- after the seeding campaign: regressions of the new fixes and canaries for the new rules ----------------
+m('C12','ontrack-after-leave','rtpconn/rtpconn.go',
+  '\t\tg := c.Group()\n\t\tif g != nil {\n\t\t\tpushConn(up, g, g.GetClients(c))\n\t\t}',
+  '\t\tpushConn(up, c.Group(), c.Group().GetClients(c))',
+  'R12.2','deref c.Group() in rtpconn.newUpConn$1','F-P regression: track callback after the client left',quick=True)
+m('C12','offer-nonmember',W,
+  '\t\tif c.group == nil || !slices.Contains(c.permissions, "present") {','\t\tif !slices.Contains(c.permissions, "present") {',
+  'R12.2','deref c.Group() in rtpconn.newUpConn','F-B regression seen from C12: offer without membership reaches Group().API()')
+m('C08','empty-pbkdf2-key','group/client.go',
+  '\t\tif len(key) == 0 {\n\t\t\treturn false, errors.New("empty key")\n\t\t}\n','',
+  'R8.4','Match never compares an empty derived key','F-Q regression',quick=True)
+m('C08','null-password','group/client.go',
+  '\tif string(b) == "null" {\n\t\t// no password, which is different from the empty password\n\t\t*p = Password{}\n\t\treturn nil\n\t}\n','',
+  'R8.2','JSON null is no password','F-R regression (decoding)')
+m('C08','keyless-short-form','group/client.go',
+  '\tif p.Type == "plain" && p.Key != nil &&\n\t\tp.Hash == ""','\tif p.Type == "plain" &&\n\t\tp.Hash == ""',
+  'R8.2','the short form is written only for a record that has a key','F-R regression (encoding)')
+m('C08','match-true-with-error','group/client.go',
+  '\t\treturn err == nil, err\n','\t\treturn true, err\n',
+  'R8.2','an error never comes with a match','malformed bcrypt record accepts any password for callers that ignore the error')
+m('C08','tool-truncates','galenectl/galenectl.go',
+  '\t\tkey, err := bcrypt.GenerateFromPassword(\n\t\t\t[]byte(pw), cost,\n\t\t)','\t\tkey, err := bcrypt.GenerateFromPassword(\n\t\t\t[]byte(pw)[:min(len(pw), 72)], cost,\n\t\t)',
+  'R8.4','tool and server hash the whole password','hash verifies for every password with the same first 72 bytes')
+m('C07','replace-ignores-del',W,
+  '\tif len(del) == 0 && len(add) == 0 {\n\t\treturn false, nil\n\t}','\tif len(add) == 0 {\n\t\treturn false, nil\n\t}',
+  'R7.6','replaceTracks: \'unchanged\' only when','a narrowed request is not applied',quick=True)
+m('C07','addlocal-after-close','rtpconn/rtpconn.go',
+  '\tif up.closed {\n\t\treturn os.ErrClosed\n\t}\n\tfor _, t := range up.local {','\tif up.closed && os.Getenv("GALENE_STRICT") != "" {\n\t\treturn os.ErrClosed\n\t}\n\tfor _, t := range up.local {',
+  'R7.6','AddLocal: a closed stream accepts no new subscriber','delayed push after close attaches a downstream for ever')
+m('C07','close-marked-late',W,
+  '\tconn.mu.Lock()\n\tconn.closed = true\n\tconn.mu.Unlock()\n\n\tconn.pc.Close()\n\n\tif push && g != nil {\n\t\tfor _, c := range g.GetClients(c) {\n\t\t\terr := c.PushConn(g, id, nil, nil, replace)\n\t\t\tif err != nil {\n\t\t\t\tlog.Printf("PushConn: %v", err)\n\t\t\t}\n\t\t}\n\t}\n',
+  '\tconn.pc.Close()\n\n\tif push && g != nil {\n\t\tfor _, c := range g.GetClients(c) {\n\t\t\terr := c.PushConn(g, id, nil, nil, replace)\n\t\t\tif err != nil {\n\t\t\t\tlog.Printf("PushConn: %v", err)\n\t\t\t}\n\t\t}\n\t}\n\n\tconn.mu.Lock()\n\tconn.closed = true\n\tconn.mu.Unlock()\n',
+  'R7.6','delUpConn marks the stream closed before announcing','close announced before the stream refuses subscribers')
+m('C10','autolock-empty-group','group/group.go',
+  '\tclients := g.getClientsUnlocked(nil)\n\tfor _, c := range clients {\n\t\tif slices.Contains(c.Permissions(), "op") {\n\t\t\treturn\n\t\t}\n\t}',
+  '\tclients := g.getClientsUnlocked(nil)\n\tif len(clients) == 0 {\n\t\treturn\n\t}\n\tfor _, c := range clients {\n\t\tif slices.Contains(c.Permissions(), "op") {\n\t\t\treturn\n\t\t}\n\t}',
+  'R10.5','autoLockKick: gives up only when','an empty autolock group stays unlocked')
+m('C13','batch-abandoned',W,
+  '\t\t\tfor _, a := range actions {\n\t\t\t\terr := handleAction(c, a)\n\t\t\t\tif err != nil {\n\t\t\t\t\treturn err\n\t\t\t\t}\n\t\t\t}',
+  '\t\t\tfor _, a := range actions {\n\t\t\t\terr := handleAction(c, a)\n\t\t\t\tif err != nil {\n\t\t\t\t\tlog.Printf("action: %v", err)\n\t\t\t\t\tbreak\n\t\t\t\t}\n\t\t\t}',
+  'R13.4','consumer rtpconn.clientLoop','actions queued behind a failing one are lost')
+m('C14','join-redirect-ghost',W,
+  '\t\tc.group = g\n\t\tif redirect := g.Description().Redirect; redirect != "" {','\t\tif redirect := g.Description().Redirect; redirect != "" {',
+  'R14.4','join: admitted client is recorded or removed','F-C regression seen from C14')
+m('C15','history-not-aged','group/group.go',
+  '\tg.history = discardObsoleteHistory(\n\t\tg.history, maxHistoryAge(g.description),\n\t)\n\n\th := make([]ChatHistoryEntry, len(g.history))','\th := make([]ChatHistoryEntry, len(g.history))',
+  'R15.6','GetChatHistory ages the history','expired chat replayed to joining clients')
+m('C16','remove-before-rename','token/stateful.go',
+  '\terr = os.Rename(tmpfile.Name(), state.filename)','\tos.Remove(state.filename)\n\terr = os.Rename(tmpfile.Name(), state.filename)',
+  'R16.4','the old version stays in place until the rename','window without a token file')
+m('C16','edit-in-place',W,
+  '\t\t\tt := old.Clone()\n','\t\t\tt := old\n',
+  'R16.6','token.Get in rtpconn.handleClientMessage','failed edits still take effect in memory')
+m('C16','etag-refreshed','webserver/api.go',
+  '\t\tnewtoken.Group = g\n\t\tnewtoken.Token = t\n\t\t_, err = token.Update(&newtoken, etag)','\t\tnewtoken.Group = g\n\t\tnewtoken.Token = t\n\t\t_, etag, _ = token.Get(t)\n\t\t_, err = token.Update(&newtoken, etag)',
+  'R16.5','token.Update in webserver.tokensHandler','If-Match no longer protects against a concurrent change')
+m('C18','remove-before-rename','group/description.go',
+  '\terr = os.Rename(temp, filename)','\tos.Remove(filename)\n\terr = os.Rename(temp, filename)',
+  'R18.3','the old version stays in place until the rename','window without a group file')
+m('C18','empty-element-matches','webserver/precondition.go',
+  '\t\tif e == "" {\n\t\t\tbreak\n\t\t}\n\t\tif e == etag {\n\t\t\treturn true\n\t\t}','\t\tif e == etag {\n\t\t\treturn true\n\t\t}\n\t\tif e == "" {\n\t\t\tbreak\n\t\t}',
+  'R18.4','etagMatch: only a non-empty element can match','malformed If-Match matches a non-existent object')
+m('C19','token-username-unchecked','group/group.go',
+  '\tif !validUsername(username) {\n\t\treturn "", nil, &NotAuthorisedError{\n\t\t\terrors.New("invalid username"),\n\t\t}\n\t}\n\n\treturn username, perms, nil','\tif creds.Token == "" && !validUsername(username) {\n\t\treturn "", nil, &NotAuthorisedError{\n\t\t\terrors.New("invalid username"),\n\t\t}\n\t}\n\n\treturn username, perms, nil',
+  'R19.2','every login returns a username that validUsername accepted','token logins accept ../x as username')
+m('C05','scan-stops-at-hole',PC,
+  '\t\tif entries[i].lengthAndMarker == 0 || entries[i].seqno != seqno {\n\t\t\tcontinue\n\t\t}','\t\tif entries[i].lengthAndMarker == 0 {\n\t\t\tbreak\n\t\t}\n\t\tif entries[i].seqno != seqno {\n\t\t\tcontinue\n\t\t}',
+  'R5.1','get scans every slot','packets behind an unused slot are not found')
+m('C06','restart-threshold',PC,
+  '\tif reference-seqno > 0x100 {','\tif reference-seqno >= 0x100 {',
+  'R6.5','a packet is \'too old\' only when more than 256 behind','restart for a packet exactly 256 behind')
+m('C02','pid-shift-conditional',PM,
+  '\tm.pidDelta += pid - m.nextPid\n','\tif compare(m.nextPid, pid) < 0 {\n\t\tm.pidDelta += pid - m.nextPid\n\t}\n',
+  'R2.5','every successful Drop accumulates','withheld frame not counted when the picture id wraps')
+m('C02','m-bit-lost',C,
+  '\t\t\tdata[offset] = (data[offset] + uint8(delta)) & 0x7F','\t\t\tdata[offset] = data[offset] + uint8(delta)',
+  'R2.5','the rewritten picture-id octet keeps its M bit','7-bit id overflows into the M flag')
+m('C01','identity-with-intervals',PM,
+  '\tif m.delta == 0 && m.entries == nil {\n\t\tif compare(m.next, seqno) <= 0 ||','\tif m.delta == 0 && m.pidDelta == 0 {\n\t\tif compare(m.next, seqno) <= 0 ||',
+  'R1.3','Map: successful returns','late packets bypass the interval table when the offset wrapped to 0')
+m('C01','rewrite-in-place',R,
+  '\tn := copy(buf2, buf)\n\terr = codecs.RewritePacket(codec, buf2[:n], setMarker, newseqno, -piddelta)\n\tif err != nil {\n\t\treturn 0, err\n\t}\n\treturn down.write(buf2[:n])',
+  '\tn := len(buf)\n\t_ = buf2\n\terr = codecs.RewritePacket(codec, buf[:n], setMarker, newseqno, -piddelta)\n\tif err != nil {\n\t\treturn 0, err\n\t}\n\treturn down.write(buf[:n])',
+  'R1.4','the mapped number is written into a private copy','next receiver maps an already mapped number')
+m('C03','drop-after-hole',PM,
+  '\tif seqno != m.next {\n\t\treturn false\n\t}\n\n\tif len(m.entries) == 0 {\n\t\tm.entries = []entry{',
+  '\tif compare(seqno, m.next) < 0 {\n\t\treturn false\n\t}\n\n\tif len(m.entries) == 0 {\n\t\tm.entries = []entry{',
+  'R3.2','Drop: store to','a withheld packet after a hole ends up inside the next interval: a NACK resends it')
+m('C20','wrong-clockrate',DW,
+  '\t\t\t\tuint32(rtptime.FromDuration(\n\t\t\t\t\toffset,\n\t\t\t\t\ttt.remote.Codec().ClockRate,\n\t\t\t\t)),','\t\t\t\tuint32(rtptime.FromDuration(\n\t\t\t\t\toffset,\n\t\t\t\t\tt.remote.Codec().ClockRate,\n\t\t\t\t)),',
+  'R20.7','ticks for tt.origin','audio origin shifted with the video clock rate')
